@@ -4,6 +4,7 @@
    Some (op index, component id) of the first disagreement. *)
 From stdpp Require Import gmap sorting.
 From Goat Require Import Base.Prelude Gen.Consts Model.Locking Model.LockingGenesis Cases.Common.
+From Goat Require Proofs.LockingPending.
 Local Open Scope Z_scope.
 
 Definition vdump : Type := (N * (N * N * list (N * Z) * Z * Z * N * Z * Z * Z))%type.
@@ -132,7 +133,15 @@ Definition wf_opb (o : lop) : bool :=
   | LOp (KReq _ _ q) => forallb (fun r : N * N * Z => 0 <=? snd r) (q_locks q)
   | _ => true
   end.
+(* block structure (Proofs/LockingPending.phase_step) *)
+Fixpoint wf_histb (ph : option Z) (ops : list (lop * lobs)) : bool :=
+  match ops with
+  | [] => true
+  | (LOp k, _) :: r => match LockingPending.phase_step ph k with Some ph' => wf_histb ph' r | None => false end
+  | (LDump _, _) :: r => wf_histb ph r
+  end.
 Definition wf_caseb (i : linit) (ops : list (lop * lobs)) : bool :=
+  (0 <=? lp_jail_dur (i_params i)) && wf_histb None ops &&
   (0 <=? lp_slash_down (i_params i)) && (lp_slash_down (i_params i) <=? one18) &&
   (0 <=? lp_slash_double (i_params i)) && (lp_slash_double (i_params i) <=? one18) &&
   forallb (fun x => wf_opb (fst x)) ops.
